@@ -733,3 +733,62 @@ func viaCell(v ssa.Value) ssa.Value {
 	}
 	return v
 }
+
+// ruleQueryHash (R13k.hash): QueryStringHash — one half of the de-duplication key — is the
+// hash of the step's query string and of nothing else: a hash that also covers the insertion
+// point (or anything else that differs between two steps asking the same question) makes
+// identical lookups look different, and they are sent once per step.
+func ruleQueryHash(r *Run) {
+	const rule = "R13k.hash"
+	n := 0
+	for _, fn := range r.P.Funcs {
+		var qsVal ssa.Value
+		for _, ins := range allInstrs(fn) {
+			if st, ok := ins.(*ssa.Store); ok {
+				if fa, ok := st.Addr.(*ssa.FieldAddr); ok && fieldOf(fa) != nil && fieldOf(fa).Name() == "QueryString" && namedOf(fa.X.Type()) == plannerPkg+".QueryPlanStep" {
+					qsVal = st.Val
+				}
+			}
+		}
+		for _, ins := range allInstrs(fn) {
+			st, ok := ins.(*ssa.Store)
+			if !ok {
+				continue
+			}
+			fa, ok := st.Addr.(*ssa.FieldAddr)
+			if !ok || fieldOf(fa) == nil || fieldOf(fa).Name() != "QueryStringHash" || namedOf(fa.X.Type()) != plannerPkg+".QueryPlanStep" {
+				continue
+			}
+			if al, isAl := fa.X.(*ssa.Alloc); isAl && al.Parent() == fn {
+				if _, isConst := st.Val.(*ssa.Const); isConst {
+					continue // zero value in a literal
+				}
+			}
+			n++
+			good := false
+			if c, ok := st.Val.(*ssa.Call); ok && strings.HasPrefix(calleeName(&c.Call), "crypto/sha") && len(c.Call.Args) == 1 && qsVal != nil {
+				if cv, ok := c.Call.Args[0].(*ssa.Convert); ok && cv.X == qsVal {
+					good = true
+				}
+			}
+			r.Check(good, rule, fnName(fn), "QueryStringHash = hash(QueryString)", r.P.pos(st.Pos()),
+				"the hash is a one-shot digest of exactly the string stored as QueryString",
+				"QueryStringHash is no longer the digest of the step's query string alone: whatever else goes into it (the insertion point, a counter) tells apart steps that ask a service the same question, so the de-duplication key never matches across steps and the same entity is fetched once per step")
+		}
+		// a hash that is filled in some other way (copy into the array, element writes)
+		for _, ins := range allInstrs(fn) {
+			var base ssa.Value
+			switch x := ins.(type) {
+			case *ssa.Slice:
+				base = x.X
+			case *ssa.IndexAddr:
+				base = x.X
+			}
+			if fa, ok := base.(*ssa.FieldAddr); ok && fieldOf(fa) != nil && fieldOf(fa).Name() == "QueryStringHash" && namedOf(fa.X.Type()) == plannerPkg+".QueryPlanStep" && topFn(fn).Pkg != nil && shortPkg(topFn(fn).Pkg.Pkg.Path()) == "planner" {
+				n++
+				r.Bad(rule, fnName(fn), "QueryStringHash filled piecewise", r.P.pos(ins.Pos()), "QueryStringHash is written through a slice/element of the array instead of being assigned the digest of the query string: what it covers can no longer be read off (see R13k: it must be the query string alone)")
+			}
+		}
+	}
+	r.AtLeast(rule, "assignments of QueryStringHash", n, 1)
+}
